@@ -6,7 +6,17 @@ normalisation, with the syntactic form it has today; the string literals it writ
 holes (`§`) of the form and become the table.  The `Array` arm is recognised in two forms
 (suffix written after the element type / suffix joined to the declarator, parenthesised when
 it starts with `*`); the table records which one is present.  A new arm, a missing arm or
-any other shape raises TranslateError."""
+any other shape raises TranslateError.
+
+The `wrap_as_variadic` path of `impl CSerialize for Function` is matched as one template from the
+`} else {` of `if wrap_as_variadic.is_none()` to the collection of the forwarded names (holes: the
+fragments `, ...) {`, ` ret;`, `va_list ap;\n`, `va_start(ap, `, `);`, `ret = `, `(`), followed by
+the statement that puts `ap` back among the forwarded names — recognised in two forms
+(`args.insert(*idx_of_va_list_arg, "ap")` / `args.push("ap")`), recorded as `vaApPlacement` — and
+by the `va_end(ap);` / `return ret;` tail; the pruning of the parameter list (`Some(idx) ==
+idx_to_prune`) and the decision of `utils::wrap_as_variadic_fn` / `Function::codegen`
+(bindgen/codegen/mod.rs: at most N arguments -> no wrapping, the name compared with `ty.name()`,
+the Alias / ResolvedTypeRef walk, exactly one hit, callback last) are anchors as well."""
 import re
 from translate import read, body_after, strip_comments, braces, TranslateError
 
@@ -183,6 +193,7 @@ def fn_impl(repo):
             raise TranslateError("%s: Function::serialize: anchor `%s` out of order" % (REL, key))
         last = m.start()
         got[key] = [unrust(g) for g in m.groups()]
+    got.update(va_impl(src, impl))
     i = src.index("fn serialize_args<W: Write>(")
     j = src.index("{", src.index("-> Result<(), CodegenError>", i))
     sa = norm(src[j + 1:braces(src, j) - 1])
@@ -191,6 +202,103 @@ def fn_impl(repo):
     if not m:
         raise TranslateError("%s: serialize_args no longer has the recognised form" % REL)
     got["args"] = [unrust(g) for g in m.groups()]
+    return got
+
+
+VA_PRUNE = [
+    r'let idx_to_prune = wrap_as_variadic\.as_ref\(\)\.map\( \|WrapAsVariadic \{ idx_of_va_list_arg, \.\. \}\| \*idx_of_va_list_arg, \);',
+    r'\.argument_types\(\) \.iter\(\) \.cloned\(\) \.enumerate\(\) \.filter_map\(\|\(idx, \(opt_name, type_id\)\)\| \{ '
+    r'if Some\(idx\) == idx_to_prune \{ None \} else \{ Some\(\( opt_name\.unwrap_or_else\(\|\| \{',
+    r'\}\), type_id, \)\) \} \}\) \.collect::<Vec<_>>\(\) \};',
+]
+VA_BRANCH = ('} else { writeln!(writer, "§")?; if !ret_ty.is_void() { write!(writer, "{INDENT}")?; '
+             'ret_ty.serialize(ctx, ret_item, stack, writer)?; writeln!(writer, "§")?; } '
+             'writeln!(writer, "{INDENT}§")?; writeln!( writer, "{INDENT}§{}§", args.last().unwrap().0 )?; '
+             'write!(writer, "{INDENT}")?; if !ret_ty.is_void() { write!(writer, "§")?; } write!(writer, "{name}§")?; } '
+             'let mut args: Vec<_> = args.into_iter().map(|(name, _)| name).collect(); ')
+VA_AP_FORMS = [
+    ("insertAtVaListIdx", 'if let Some(WrapAsVariadic { idx_of_va_list_arg, .. }) = wrap_as_variadic { '
+                          'args.insert(*idx_of_va_list_arg, "§".to_owned()); } serialize_sep('),
+    ("pushLast", 'if let Some(WrapAsVariadic { idx_of_va_list_arg, .. }) = wrap_as_variadic { args.push("§".to_owned()); } serialize_sep('),
+    ("pushLast", 'if wrap_as_variadic.is_some() { args.push("§".to_owned()); } serialize_sep('),
+]
+VA_TAIL = ('if wrap_as_variadic.is_some() { writeln!(writer, "{INDENT}§")?; if !ret_ty.is_void() { '
+           'writeln!(writer, "{INDENT}§")?; } } writeln!(writer, "')
+
+
+def va_impl(src, impl):
+    """fragments and structure of the `wrap_as_variadic` path of Function::serialize (impl = normalised body)"""
+    got = {}
+    last = -1
+    for k, rx in enumerate(VA_PRUNE):
+        m = re.search(rx, impl)
+        if not m or m.start() < last:
+            raise TranslateError("%s: Function::serialize: the pruning of the va_list parameter (`Some(idx) == idx_to_prune` "
+                                 "inside enumerate().filter_map) no longer has the recognised form (part %d)" % (REL, k))
+        last = m.start()
+    m = re.search(r'const INDENT: &str = "( *)";', src)
+    if not m:
+        raise TranslateError("%s: Function::serialize: anchor `const INDENT` not found" % REL)
+    got["indent"] = [m.group(1)]
+    m = tmpl(VA_BRANCH).search(impl)
+    if not m:
+        raise TranslateError("%s: Function::serialize: the `wrap_as_variadic` branch (`, ...) {{`, `ret;`, `va_list ap;`, "
+                             "`va_start(ap, last named)`, `ret = `, call) no longer has the recognised form" % REL)
+    got["vaBranch"] = [unrust(g) for g in m.groups()]
+    rest = impl[m.end():].lstrip()
+    for form, t in VA_AP_FORMS:
+        a = tmpl(t).match(rest)
+        if a:
+            got["apPlacement"] = [form, unrust(a.group(1))]
+            break
+    else:
+        raise TranslateError("%s: Function::serialize: the statement that re-inserts `ap` among the forwarded argument names "
+                             "has neither recognised form (insert at idx_of_va_list_arg / push); got: %s" % (REL, rest[:160]))
+    m = tmpl(VA_TAIL).search(impl)
+    if not m:
+        raise TranslateError("%s: Function::serialize: the `va_end(ap);` / `return ret;` tail no longer has the recognised form" % REL)
+    got["vaTail"] = [unrust(g) for g in m.groups()]
+    return got
+
+
+MOD = "bindgen/codegen/mod.rs"
+VA_DECISION = [
+    ("minArgs", r'if signature\.argument_types\(\)\.len\(\) <= (\d+) \{ return None; \}'),
+    ("walk", r'let mut it = signature\.argument_types\(\)\.iter\(\)\.enumerate\(\)\.filter_map\( \|\(idx, \(_name, mut type_id\)\)\| \{ '
+             r'loop \{ let ty = ctx\.resolve_type\(type_id\); if Some\("([^"]*)"\) == ty\.name\(\) \{ return Some\(idx\); \} '
+             r'match ty\.kind\(\) \{ TypeKind::Alias\(type_id_alias\) => \{ type_id = \*type_id_alias; \} '
+             r'TypeKind::ResolvedTypeRef\(type_id_typedef\) => \{ type_id = \*type_id_typedef; \} _ => break, \} \} None \}, \);'),
+    ("unique", r'it\.next\(\)\.filter\(\|_\| it\.next\(\)\.is_none\(\)\)\.and_then\(\|idx\| \{'),
+    ("callback", r'\.last_callback\(\|c\| c\.wrap_as_variadic_fn\(name\)\) \.map\(\|new_name\| super::WrapAsVariadic \{ new_name, idx_of_va_list_arg: idx, \}\)'),
+]
+VA_CODEGEN = [
+    ("guard", r'let wrap_as_variadic = if should_wrap && !signature\.is_variadic\(\) \{ utils::wrap_as_variadic_fn\(ctx, signature, name\) \} else \{ None \};'),
+    ("binding", r'let \(ident, args\) = if let Some\(WrapAsVariadic \{ idx_of_va_list_arg, new_name, \}\) = &wrap_as_variadic \{ \( new_name, '
+                r'utils::fnsig_arguments_iter\( ctx, signature\.argument_types\(\)\.iter\(\)\.enumerate\(\)\.filter_map\( \|\(idx, t\)\| \{ '
+                r'if idx == \*idx_of_va_list_arg \{ None \} else \{ Some\(t\) \} \}, \), true, \), \) \} else \{ '
+                r'\(&canonical_name, utils::fnsig_arguments\(ctx, signature\)\) \};'),
+    ("queue", r'if should_wrap \{ result \.items_to_serialize \.push\(\(item\.id\(\), wrap_as_variadic\)\); \}'),
+]
+
+
+def va_decision(repo):
+    """`utils::wrap_as_variadic_fn` and its use in `Function::codegen` (bindgen/codegen/mod.rs)"""
+    src = read(repo, MOD)
+    fn = norm(body_after(src, r"pub\(super\) fn wrap_as_variadic_fn\(\s*ctx: &BindgenContext,\s*signature: &FunctionSig,\s*name: &str,\s*\) -> Option<super::WrapAsVariadic>\s*\{", MOD))
+    got, last = {}, -1
+    for key, rx in VA_DECISION:
+        m = re.search(rx, fn)
+        if not m or m.start() < last:
+            raise TranslateError("%s: utils::wrap_as_variadic_fn: anchor `%s` not found (or out of order)" % (MOD, key))
+        last = m.start()
+        got[key] = list(m.groups())
+    whole = norm(src)
+    last = -1
+    for key, rx in VA_CODEGEN:
+        m = re.search(rx, whole)
+        if not m or m.start() < last:
+            raise TranslateError("%s: Function::codegen: anchor `%s` of the wrap_as_variadic decision not found (or out of order)" % (MOD, key))
+        last = m.start()
     return got
 
 
@@ -311,5 +419,25 @@ def generate(repo):
     d("fragCallSep", fn["names"][0])
     d("fragCallClose", fn["close"][0] + fn["close"][1])
     d("fragEnd", fn["end"][0] + "\n")
+    va = va_decision(repo)
+    w("\n/-! `impl CSerialize for Function`, path with `wrap_as_variadic`; `utils::wrap_as_variadic_fn` (codegen/mod.rs) -/")
+    w("/-- where the forwarded `ap` is put among the argument names of the call -/")
+    w("inductive ApPlacement where\n  | insertAtVaListIdx   -- `args.insert(*idx_of_va_list_arg, ..)`\n  | pushLast            -- `args.push(..)`\n  deriving DecidableEq, Repr\n")
+    w("def vaApPlacement : ApPlacement := .%s" % fn["apPlacement"][0])
+    d("fragIndent", fn["indent"][0], "`const INDENT`")
+    d("fragVaOpen", fn["vaBranch"][0] + "\n", "closes the parameter list of a variadic wrapper")
+    d("fragVaRetDecl", fn["vaBranch"][1] + "\n", "after the return type: declaration of the result variable")
+    d("fragVaListDecl", fn["vaBranch"][2] + "\n")
+    d("fragVaStartPre", fn["vaBranch"][3])
+    d("fragVaStartPost", fn["vaBranch"][4] + "\n")
+    d("fragVaAssign", fn["vaBranch"][5])
+    d("fragVaCallOpen", fn["vaBranch"][6])
+    d("fragVaAp", fn["apPlacement"][1], "the name forwarded in place of the va_list parameter")
+    d("fragVaCallClose", fn["close"][0] + "\n")
+    d("fragVaEnd", fn["vaTail"][0] + "\n")
+    d("fragVaReturn", fn["vaTail"][1] + "\n")
+    w("/-- `wrap_as_variadic_fn`: signatures with at most this many arguments are never wrapped as variadic -/")
+    w("def vaMaxArgsNeverWrapped : Nat := %d" % int(va["minArgs"][0]))
+    d("vaBuiltinName", va["walk"][0], "the type name the Alias / ResolvedTypeRef walk looks for")
     w("\nend BindgenModel.Generated.SerializeArms")
     return "\n".join(o) + "\n"
